@@ -110,7 +110,7 @@ type c12Round struct {
 
 func c12(ctx *core.Ctx) {
 	quietLogs()
-	ctx.Rule("rounds of W mutator goroutines (each owns one WebService key /k<i>: Add/Remove of a fresh WebService, and one route key /dyn/r<i>/{id:regex}: Route/RemoveRoute on a dynamic-routes service, each generation with another regular expression; Remove is now and then repeated; handlers return a unique generation) and R reader goroutines probing dynamic and stable URLs; both routers x {ServeHTTP, Dispatch}; yields injected through If-conditions (inside the read-locked selection) and a container filter. Monitors: Go race detector; client-boundary history {op, key, gen, call, return} checked by porcupine per key against a register over {absent, gen}; stable URLs must always get their fixed answer; panics; blocked-goroutine state detector. Non-trivial = a read that overlapped a write of its own key; distinct by (round configuration, key, observed value class).")
+	ctx.Rule("rounds of W mutator goroutines (each owns one WebService key /k<i>: Add/Remove of a fresh WebService, and one route key /d<i>/r/{id:regex}: Route/RemoveRoute on its own dynamic-routes service (empty whenever the route is withdrawn), each generation with another regular expression; an OPTIONS filter is installed and readers also send OPTIONS; Remove is now and then repeated; handlers return a unique generation) and R reader goroutines probing dynamic and stable URLs; both routers x {ServeHTTP, Dispatch}; yields injected through If-conditions (inside the read-locked selection) and a container filter. Monitors: Go race detector; client-boundary history {op, key, gen, call, return} checked by porcupine per key against a register over {absent, gen}; stable URLs must always get their fixed answer; panics; blocked-goroutine state detector. Non-trivial = a read that overlapped a write of its own key; distinct by (round configuration, key, observed value class).")
 	ctx.Assume("schedules are not reproducible: evidence reports the overlap actually observed", "a porcupine timeout is inconclusive, never a violation")
 	rounds := ctx.N(64, 6000)
 	var totalOps, totalOverlap, partitions int
@@ -153,6 +153,14 @@ func c12(ctx *core.Ctx) {
 			resp.Write([]byte("keep"))
 		}))
 		c.Add(dyn)
+		// one dynamic-routes WebService per mutator, EMPTY whenever its single route is withdrawn
+		dyns := make([]*restful.WebService, rd.Mutators)
+		for m := range dyns {
+			dyns[m] = new(restful.WebService).Path(fmt.Sprintf("/d%d", m))
+			dyns[m].SetDynamicRoutes(true)
+			c.Add(dyns[m])
+		}
+		c.Filter(c.OPTIONSFilter) // OPTIONS requests walk the routes as well
 
 		hist := &histRec{}
 		epoch := time.Now()
@@ -187,7 +195,7 @@ func c12(ctx *core.Ctx) {
 					}
 				}()
 				skey := fmt.Sprintf("/k%d", m)
-				rkey := fmt.Sprintf("/dyn/r%d", m)
+				rkey := fmt.Sprintf("/d%d/r", m)
 				rpath := ""
 				var ws *restful.WebService
 				routeOn := false
@@ -216,15 +224,15 @@ func c12(ctx *core.Ctx) {
 					// route key
 					if !routeOn {
 						g := int(atomic.AddInt64(&gen, 1))
-						rpath = fmt.Sprintf("/dyn/r%d/{id:[0-9]{1,%d}}", m, 1+g%9)
+						rpath = fmt.Sprintf("/d%d/r/{id:[0-9]{1,%d}}", m, 1+g%9)
 						call := now()
 						// every generation declares its parameter with another regular expression
-						dyn.Route(dyn.GET(fmt.Sprintf("/r%d/{id:[0-9]{1,%d}}", m, 1+g%9)).If(yieldCond).To(genHandler(g)))
+						dyns[m].Route(dyns[m].GET(fmt.Sprintf("/r/{id:[0-9]{1,%d}}", 1+g%9)).If(yieldCond).To(genHandler(g)))
 						hist.add(porcupine.Operation{ClientId: m, Input: regIn{rkey, opAdd, g}, Call: call, Output: 0, Return: now()})
 						routeOn = true
 					} else {
 						call := now()
-						dyn.RemoveRoute(rpath, "GET")
+						dyns[m].RemoveRoute(rpath, "GET")
 						hist.add(porcupine.Operation{ClientId: m, Input: regIn{rkey, opRemove, 0}, Call: call, Output: 0, Return: now()})
 						routeOn = false
 					}
@@ -246,8 +254,17 @@ func c12(ctx *core.Ctx) {
 						key := fmt.Sprintf("/k%d", k)
 						path := key + "/v"
 						if k >= rd.Mutators {
-							key = fmt.Sprintf("/dyn/r%d", k-rd.Mutators)
+							key = fmt.Sprintf("/d%d/r", k-rd.Mutators)
 							path = key + "/7"
+						}
+						if n%11 == 10 {
+							// an OPTIONS request for the same URL (answered by the OPTIONS filter from the current routes)
+							oreq := rt.Req{Method: "OPTIONS", Path: path}
+							if o := rt.Run(c, rd.Entry, &oreq); o.Panicked {
+								atomic.AddInt32(&panics, 1)
+								firstPanic.Store("OPTIONS " + path + ": " + o.Panic)
+							}
+							ctx.Count("options_probes", 1)
 						}
 						call := now()
 						status, body, ok := get(path)
